@@ -360,11 +360,12 @@ func (s *supOFO) childDisable(name gen.Atom) (supAction, error) {
 			return action, nil
 		}
 
+		cs.disabled = true
 		if cs.pid == empty {
+			// is not running. nothing to stop
 			return action, nil
 		}
 
-		cs.disabled = true
 		action.do = supActionTerminateChildren
 		action.terminate = []gen.PID{cs.pid}
 		action.reason = gen.TerminateReasonShutdown
